@@ -171,7 +171,10 @@ class ExcSpec:
 
 
 class LoopSpec:
-    def __init__(self, inv=None, decreases=None, modifies_extra=(), props=()):
+    def __init__(self, inv=None, decreases=None, modifies_extra=(), props=(), modifies=None):
+        # modifies(c) -> heap frame of the loop (field names or (field, object term)); when given
+        # it replaces the syntactic over-approximation for heap fields
+        self.modifies = modifies
         self.inv = inv or (lambda c: [])
         self.decreases = decreases
         self.modifies_extra = list(modifies_extra)
@@ -683,7 +686,7 @@ class Engine:
 
     def handler_classes(self, node, st):
         if node is None:
-            return ['Exception', 'BaseException']
+            return ['BaseException']
         if isinstance(node, ast.Tuple):
             out = []
             for e in node.elts:
@@ -704,7 +707,7 @@ class Engine:
             names = self.handler_classes(h.type, st)
             conds = []
             for n in names:
-                if n in ('Exception', 'BaseException'):
+                if n == 'BaseException':
                     conds.append(z3.BoolVal(True))
                 elif n in EXC:
                     conds.append(exc_issub(exc.cls, n))
@@ -816,6 +819,14 @@ class Engine:
                     raise Unsupported('cannot havoc local %s=%r' % (n, v))
         fields, ghosts = self.intr.modset(self, body_nodes)
         precise = getattr(self.intr, 'last_precise', {})
+        if spec is not None and spec.modifies is not None:
+            c = Ctx(self, st, st, self.cur_args, entry=self.entry_state)
+            for m in spec.modifies(c):
+                if isinstance(m, str):
+                    self.hhavoc(st, m, 'Hl')
+                else:
+                    self.hwrite(st, m[0], m[1], fresh('Hl!' + m[0], self.fields[m[0]].sort()))
+            fields = set()
         if spec is not None:
             for m in spec.modifies_extra:
                 if m.startswith('g:'):
@@ -1403,6 +1414,8 @@ class Engine:
         line = getattr(node, 'lineno', None)
         short = self.prog.short(fi.qualname)
         for (label, f) in con.requires(c0):
+            if label.startswith('def-'):
+                continue      # definitional axiom of a ghost predicate, not a caller obligation
             self.oblige(st, f, 'pre', '%s.%s@L%s' % (short, label, line),
                         props=sorted(set(con.props) | set(self.cur_contract.props)), line=line)
         # recursion: termination measure
@@ -1463,7 +1476,14 @@ class Engine:
                 s1.trace.append('c%s:ret' % (line,))
                 outs.append((s1, res))
             else:
-                exc = new_exc(es.cls, 'callee')
+                if es.cls in ('Exception', 'OSError', 'BaseException'):
+                    # a generic clause stands for every subclass
+                    ecls = fresh('callee_exc_cls', ExcClsS)
+                    s1.assume(exc_issub(ecls, es.cls))
+                    s1.assume(ecls != EXC['BaseException'])
+                    exc = ExcV(ecls, fresh('exc', z3.IntSort()), 'callee')
+                else:
+                    exc = new_exc(es.cls, 'callee')
                 if es.when is not None:
                     s1.assume(es.when(c0))
                 c1 = Ctx(self, pre, s1, cargs, exc=exc, entry=pre)
@@ -1564,7 +1584,12 @@ class Engine:
                 if not g0.eq(s1.g[gname]):
                     self.oblige(s1, s1.g[gname] == g0, 'frame', tag + 'g:' + gname)
         mods = con.modifies(c0)
+        exit_hook = getattr(con, 'exit_obligations', None)
         for (s1, ctrl, v) in outcomes:
+            if exit_hook is not None and ctrl in ('ok', 'ret', 'exc'):
+                # obligations over the locals at the exit (e.g. objects created by this call)
+                for (label, f, props) in exit_hook(self, s1, ctrl):
+                    self.oblige(s1, f, 'exit', label, props=props)
             if ctrl in ('ok', 'ret'):
                 if not con.may_return:
                     self.oblige(s1, False, 'post', 'never-returns')
@@ -1590,7 +1615,8 @@ class Engine:
                 exc = v
 
                 def cls_cond(es):
-                    cc = (exc_issub(exc.cls, es.cls) if es.cls in ('OSError', 'Exception')
+                    cc = (exc_issub(exc.cls, es.cls)
+                          if es.cls in ('OSError', 'Exception', 'BaseException')
                           else exc.cls == EXC[es.cls])
                     if es.guarded:
                         cc = z3.And(cc, es.when(c0))
